@@ -1,7 +1,7 @@
 //! Driving the real lace library in-process: assembling, running images and debugger sessions,
 //! reading the machine back through the `lace_verif` accessors.
 
-use crate::isolate::{fresh, guard, Env, Stop, Stopped};
+use crate::isolate::{case, fresh, guard, Env, Stop, Stopped};
 use crate::refmodel::vm::Machine;
 use lace::{Air, AsmParser, RunEnvironment, StaticSource};
 
@@ -78,8 +78,13 @@ pub fn assemble_here(text: &str) -> Asm {
     result
 }
 
-/// Assemble on a fresh thread.
+/// Assemble with fresh lace state (see [`case`]).
 pub fn assemble(text: &str, env: Env) -> Result<Asm, Stopped> {
+    case(env, || assemble_here(text))
+}
+
+/// Assemble on a fresh OS thread, always.
+pub fn assemble_fresh(text: &str, env: Env) -> Result<Asm, Stopped> {
     fresh(env, || assemble_here(text))
 }
 
@@ -166,7 +171,7 @@ pub enum SessionResult {
 /// Assemble `text` and run it, optionally under the debugger with `script` as `--command`
 /// (stdin is at end of input). Runs on a fresh thread.
 pub fn session(text: &str, env: Env, script: Option<&str>, fuel: u64) -> Result<SessionResult, Stopped> {
-    fresh(env, || {
+    case(env, || {
         let holder = StaticSource::new(text.to_string());
         // The source is intentionally not reclaimed: the debugger keeps `&'static` references to
         // it and to command buffers; it is freed when the process ends. (Bounded: ≤ a few hundred
@@ -191,7 +196,7 @@ pub fn session(text: &str, env: Env, script: Option<&str>, fuel: u64) -> Result<
 
 /// Load a raw image (origin word first) and run it without a debugger.
 pub fn run_image(image: &[u16], env: Env, fuel: u64) -> Result<Result<Obs, Ended>, Stopped> {
-    fresh(env, || {
+    case(env, || {
         let mut renv = match guard(|| RunEnvironment::from_raw(image)) {
             Ok(Ok(e)) => e,
             Ok(Err(e)) => return Err(Ended::Other(format!("{e}"))),
@@ -203,7 +208,7 @@ pub fn run_image(image: &[u16], env: Env, fuel: u64) -> Result<Result<Obs, Ended
 
 /// Load a raw image and return the machine right after loading.
 pub fn load_only(image: &[u16], env: Env) -> Result<Result<Machine, Ended>, Stopped> {
-    fresh(env, || match guard(|| RunEnvironment::from_raw(image)) {
+    case(env, || match guard(|| RunEnvironment::from_raw(image)) {
         Ok(Ok(e)) => Ok(snapshot(&e)),
         Ok(Err(e)) => Err(Ended::Other(format!("{e}"))),
         Err(s) => Err(Ended::from_result(Err(s))),
